@@ -186,32 +186,12 @@ Proof.
   destruct (index_step t idx); [|discriminate]. apply IH. lia.
 Qed.
 
-Lemma regex_lit_go_nf full fuel : forall s0 ic buf, (length s0 < fuel)%nat -> nf (regex_lit_go fuel full s0 ic buf).
-Proof.
-  induction fuel as [|f IH]; intros s0 ic buf Hf; [lia|]. cbn [regex_lit_go].
-  destruct (next_char s0) as [[c r]|] eqn:E; [|discriminate].
-  destruct (next_char_shorter _ _ _ E) as [Hr _].
-  assert (Hdef : forall ic' buf', nf (regex_lit_go f full r ic' buf')) by (intros; apply IH; lia).
-  assert (Hok : nf (LOk (buf, firstn (span_len full s0) full) r)) by discriminate.
-  destruct c as [|b t]; [apply Hdef|].
-  destruct (N.eq_dec b 92) as [->|N92].
-  { destruct t; [|apply Hdef]. destruct (next_char r) as [[c2 r2]|] eqn:E2; [|apply Hdef].
-    destruct (next_char_shorter _ _ _ E2) as [Hr2 _]. apply IH. lia. }
-  destruct (N.eq_dec b 34) as [->|N34]; [destruct t; [|apply Hdef]; destruct ic; [apply Hdef|exact Hok]|].
-  destruct (N.eq_dec b 91) as [->|N91]; [destruct t; [|apply Hdef]; destruct ic; apply Hdef|].
-  destruct (N.eq_dec b 93) as [->|N93]; [destruct t; [|apply Hdef]; destruct ic; apply Hdef|].
-  destruct b as [|p]; [apply Hdef|].
-  repeat (destruct p as [p|p|]; try apply Hdef; try contradiction).
-Qed.
-
 Lemma lex_regex_nf i : nf (lex_regex i).
 Proof.
   unfold lex_regex. destruct i as [|b r]; [discriminate|].
   assert (Hdef : nf (@LErr (bytes * option N) EExpectedName (b :: r) (length (b :: r)))) by discriminate.
   destruct (N.eq_dec b 34) as [->|N34].
-  { pose proof (regex_lit_go_nf r (S (length r)) r false [] ltac:(lia)) as H.
-    destruct (regex_lit_go (S (length r)) r r false []) as [[pat src] rest|k a n| |]; try discriminate; [|contradiction].
-    destruct (regex_compile pat); discriminate. }
+  { destruct (regex_scan_go r false) as [[pat rest]|]; [|discriminate]. destruct (regex_compile pat); discriminate. }
   destruct (N.eq_dec b 114) as [->|N114].
   { apply nf_bind; [apply safe_nf, lex_raw_safe|]. intros p rest _. destruct (regex_compile (fst p)); discriminate. }
   other_byte b Hdef.
